@@ -167,3 +167,24 @@ func writeJSON(path string, v any) error {
 	}
 	return os.Rename(tmp, path)
 }
+
+// borrowRule runs another property's rule on a scratch report and files the
+// obligations of srcRule whose construct passes keep under dstRule: the same
+// structural fact is a necessary condition of more than one property.
+func borrowRule(src ruleFn, srcRule, dstRule string, floor int, keep func(construct string) bool) ruleFn {
+	return func(c *Ctx, r *Report) {
+		tmp := NewReport(r.Prop)
+		tmp.cfgName = r.cfgName
+		src(c, tmp)
+		r.SetFloor(dstRule, floor)
+		for _, o := range tmp.Obligs {
+			if o.Rule != srcRule || o.Construct == "instance-floor" {
+				continue
+			}
+			if keep != nil && !keep(o.Construct) {
+				continue
+			}
+			r.add(dstRule, o.Construct, o.Status, o.Detail, o.Nontrivial, o.Witness...)
+		}
+	}
+}
